@@ -1,7 +1,7 @@
 (* CaseLib.v — how a correspondence case (one converter: declarations, settings, observed
    generation outcome, observed runs of the compiled output) is compared with the model. *)
 From Coq Require Import List NArith ZArith Bool.
-From GV Require Import Base Ty Conf Extracted Comment Settings Val Plan Eval Gen.
+From GV Require Import Base Ty Conf Extracted Comment Settings Val Plan Eval Gen Emit.
 Import ListNotations.
 Open Scope N_scope.
 
@@ -16,6 +16,8 @@ Record decl_src := { ds_name : rstr; ds_src : ty; ds_tgt : ty; ds_update : bool;
 Record conv_case := { k_id : N; k_env : env; k_global : list rstr; k_lines : list rstr; k_out : N;
                       k_methods : list decl_src;
                       k_outcome : N;                     (* 0 = generated, 1 = generator panicked, else diagnostic class *)
+                      k_imports : option (list N);       (* packages imported by the emitted file (None: not inspected) *)
+                      k_funcs : list rstr;               (* names of the emitted methods / functions *)
                       k_runs : list run_obs }.
 
 (* where does a value contain an address of the source (below n0, or the interior alias)? not below such a node *)
@@ -46,7 +48,7 @@ Definition paths_eq (a b : list (list pstep)) : bool := subset a b && subset b a
 Definition RUN_FUEL : nat := 400.
 Definition EQ_FUEL : nat := 200.
 
-(* failure codes: 1 success/failure of generation differs; 6 both fail with different diagnostic classes; 2 result value differs; 3 panic-ness differs; 4 sharing differs;
+(* failure codes: 7 import set differs; 8 set of emitted functions differs; 1 success/failure of generation differs; 6 both fail with different diagnostic classes; 2 result value differs; 3 panic-ness differs; 4 sharing differs;
    5 model out of fuel / stuck *)
 Definition check_run (e : env) (tab : table) (r : run_obs) : list N :=
   match r_pre r with
@@ -92,7 +94,14 @@ Definition case_generate (c : conv_case) : gres table :=
 
 Definition check_case (c : conv_case) : list N :=
   match case_generate c with
-  | GOk tab => if k_outcome c =? 0 then flat_map (check_run (k_env c) tab) (k_runs c) else [1]
+  | GOk tab => if k_outcome c =? 0
+               then flat_map (check_run (k_env c) tab) (k_runs c)
+                    ++ match k_imports c with
+                       | Some obs => (if same_set_N (imports (k_env c) (k_out c) tab) obs then [] else [7])
+                                     ++ (if same_set_str (function_names tab) (k_funcs c) then [] else [8])
+                       | None => []
+                       end
+               else [1]
   | GDiag cl => if cl =? k_outcome c then [] else if k_outcome c =? 0 then [1] else [6]
   | GPanic _ => if k_outcome c =? 1 then [] else [1]
   | GFuel => [5]
